@@ -2,12 +2,12 @@ HOOKS = {
     'guard': 'SEANDST_ACETIME_VERIF',
     'enable': 'bin/check exports SEANDST_ACETIME_VERIF=1 and compiles /repo/src with -DSEANDST_ACETIME_VERIF=1',
     'baseline_off_cmd': 'cd /repo && env -u SEANDST_ACETIME_VERIF /venv/bin/python -m pytest -ra -q -p no:cacheprovider --timeout=900 --continue-on-collection-errors',
-    'source_commits': [],
+    'source_commits': ['0bb50f5'],
     'add_only': True,
 }
 ENGINES = [
     {'name': 'cxx-sweep', 'path': 'cxx/common/verif.h + lib/runner.py',
-     'serves_properties': ['C06'],
+     'serves_properties': ['C01', 'C02', 'C06', 'C07'],
      'kind_free_text': 'sharded exhaustive enumeration of a finite input domain, executed on the real C++ classes built from /repo/src through an Arduino shim'},
 ]
 NOTES = ('All checks execute the real implementation built from /repo working tree (C++ via cxx/shim, Python via sys.path). '
@@ -17,4 +17,13 @@ CHECKS = {
     'C06': dict(engine='cxx-sweep', category='exploration', technique='bounded-exhaustive enumeration of the input domain on the real code (explicit-state, no sampling in thorough tier)',
                 text='Every date 1873..2127, every int16 year, every 2^24 byte triple for dates and times, and every int32 epoch second (thorough; stride 17 + boundaries in quick) is executed on the real LocalDate/LocalTime/LocalDateTime and compared with CPython datetime and an independent 64-bit Gregorian implementation. The quantifier is finite, so the thorough tier is complete.',
                 note='trusts g++ on LP64, the Arduino shim (PROGMEM = plain memory), CPython datetime; the first calendar day above -2^31 is left to C09 (signed overflow inside the library).'),
+    'C01': dict(engine='cxx-sweep', category='exploration', technique='bounded-exhaustive enumeration of every instant (per-second in thorough) on the real processor vs zic oracle',
+                text='Every zone of the compiled zonedbx registry is queried through the real TimeZone/ExtendedZoneProcessor at every minute of 2000..2049 plus t-2..t+2 s around every zic breakpoint and UTC year boundary (quick), or at every second (thorough: the literal quantifier, 6.1e11 instants), and compared with the table zic derives from the Zone/Rule lines recorded beside the shipped entries. ZonedDateTime fields are compared with independently shifted UTC fields.',
+                note='trusts zic/zdump (glibc 2.36), CPython zoneinfo (three-way cross-check of the oracle on every run), the Arduino shim; history-independence of the year cache is C08.'),
+    'C02': dict(engine='cxx-sweep', category='exploration', technique='bounded-exhaustive enumeration of every instant on the real basic processor vs zic oracle and vs the extended processor',
+                text='Same sweep as C01 over the 268 zonedb zones through BasicZoneProcessor, against zic on zonedb\'s own recorded lines, and at every visited instant against ExtendedZoneProcessor on the same-named zonedbx zone. The guarded hook reports transitions dropped by addTransition.',
+                note='as C01; the dropped-transition counter is diagnostic here and a requirement in C09.'),
+    'C07': dict(engine='cxx-sweep', category='exploration', technique='bounded-exhaustive enumeration of all wall-clock minutes around every transition, oracle pre-image sets',
+                text='Both processors x every zone x every zic transition of 2000..2049 x every wall-clock minute within 200 min of it (all gap and overlap minutes) plus a regular wall-clock grid: ZonedDateTime::forComponents is compared with the exact pre-image set computed from the zic table (unique -> identity, overlap -> an occurrence / the later for extended, gap -> pre-gap offset) and must be normalised.',
+                note='same oracle trust as C01; the quantifier (minutes near transitions) is finite and completely enumerated, far-from-transition wall times are covered by the grid only.', thorough=True),
 }
